@@ -148,9 +148,12 @@ func doMatchIn(expression *grammar.MatchExpression, value reflect.Value) (bool, 
 			// have to treat each element individually, checking each element's
 			// type/kind and rederiving the match value.
 			for i := 0; i < value.Len(); i++ {
-				item := value.Index(i).Elem()
-				itemType := derefType(item.Type())
-				kind := itemType.Kind()
+				item := derefValue(value.Index(i).Elem())
+				if !item.IsValid() {
+					// nil elements are equal to nothing
+					continue
+				}
+				kind := item.Kind()
 				// We need to special case errors here. The reason is that in an
 				// interface slice there can be a mix/match of types, but the
 				// coerce functions expect a certain type. So the expression
@@ -173,7 +176,7 @@ func doMatchIn(expression *grammar.MatchExpression, value reflect.Value) (bool, 
 					return false, fmt.Errorf(`unable to find suitable primitive comparison function for "in" comparison in interface slice: %s`, kind)
 				}
 				// the value will be the correct type as we verified the itemType
-				if eqFn(matchValue, reflect.Indirect(item)) {
+				if eqFn(matchValue, item) {
 					return true, nil
 				}
 			}
